@@ -151,7 +151,9 @@ Definition sort_dedup (l : list N) : list N := fold_left (fun acc x => insert_so
 Definition zoom_sizes_single (o : opts) : list N :=
   let raw := match o_manual o with
              | Some zs => zs
-             | None => map (fun k => o_izoom o * ZOOM_SUCC_FACTOR ^ N.of_nat k) (seq 0 (N.to_nat (o_maxzooms o)))
+             | None => (* the ladder stops when the next size no longer fits u32 (checked_mul, /repo fix) *)
+                       filter (fun z => z <? 2 ^ 32)
+                              (map (fun k => o_izoom o * ZOOM_SUCC_FACTOR ^ N.of_nat k) (seq 0 (N.to_nat (o_maxzooms o))))
              end in
   (* at most MAX_ZOOM_LEVELS levels fit the directory: the finest ones are kept (/repo adc453b) *)
   firstn (N.to_nat MAX_ZOOM_LEVELS) (sort_dedup (filter (fun z => negb (z =? 0)) raw)).
